@@ -243,6 +243,36 @@ def run(c, index, tier):
             m = numpy.asarray(m)
             if m.shape != (d, d) or numpy.any(numpy.isnan(m)) or numpy.any(m < -1e-12) or numpy.any(m > 1 + 1e-9):
                 _viol(c, seen, "range", (nm, model_name, "c-contiguous"), "%s matrix of the C-contiguous copy has a wrong shape, NaN or entries outside [0, 1]" % nm)
+    # ---- the caller updates a table in place between two calls (same array
+    #      object, new content): the result is that of the current content
+    if not int_table and d >= 1 and ch.boolean("w", 0.3, "table-updated-in-place"):
+        Xm = numpy.ascontiguousarray(X.copy())
+        c.ch.play_tape("r", tape)
+        try:
+            call(Xm)
+        finally:
+            c.ch.stop_play("r")
+        Xm[...] = Xm[::-1] * 1.5 + 0.25 if n > 1 else Xm + 1.0
+        if d >= 2:
+            Xm[:, -1] = Xm[:, 0] * 2.0 - 1.0
+        c.ch.play_tape("r", tape)
+        try:
+            ok1, r1 = call(Xm)
+        finally:
+            c.ch.stop_play("r")
+        c.ch.play_tape("r", tape)
+        try:
+            ok2, r2 = call(Xm.copy())
+        finally:
+            c.ch.stop_play("r")
+        if ok1 != ok2:
+            _viol(c, seen, "stale-result", ("raised",), "a table updated in place is %s while a copy of it is %s" % ("accepted" if ok1 else "rejected", "accepted" if ok2 else "rejected"))
+        elif ok1:
+            for nm, a, b in zip(("mean", "min", "max"), r1 if minmax else (r1,), r2 if minmax else (r2,)):
+                if not numpy.allclose(numpy.asarray(a), numpy.asarray(b), rtol=1e-12, atol=1e-12, equal_nan=True):
+                    _viol(c, seen, "stale-result", (nm,), "after the caller updated the table in place (same array object), the %s matrix is not that of the current content (a copy of the table gives %r, the object itself %r)" % (nm, numpy.asarray(b).tolist()[:2], numpy.asarray(a).tolist()[:2]))
+                    break
+        c.probe("table_updated_in_place_between_calls")
     # ---- a frame that is rejected (an infinite value): the call raises, the
     #      caller's frame -- values and labels -- stays as it was; once the
     #      value is repaired the result is labelled as before
